@@ -6,6 +6,9 @@ CHECKS = {
  "C02": dict(cat="model_checking", tech="explicit-state product automaton (reference NFA x compiled DFA), exhaustive small-scope grammar enumeration",
    text="For every enumerated grammar and each of the 4 shells, language equivalence (labels: text, description, fallback level, nested within-word automata) between the reference automaton and complgen's raw and minimized DFA is decided completely by exploring the finite product; grammars are all trees up to the node bound over a colliding vocabulary, so the verdict is exhaustive within that bound.",
    note="trusted: the harness's reference semantics (DESIGN.md section 2), the verif accessors (read-only); descriptions only compared where documented", ref="4/C02"),
+ "C03": dict(cat="model_checking", tech="explicit-state product raw x minimized automaton, reachability, Moore partition refinement",
+   text="For every automaton of the enumerated family (main and every within-word automaton rebuilt raw from its regex): the raw x minimized product is explored completely (language preserved), every minimized state is shown reachable and co-reachable, and an independent Moore refinement shows all states pairwise distinguishable and the size equal to the harness's own minimal automaton.",
+   note="trusted: harness Moore refinement/trim (unit-tested); verif accessors", ref="4/C03"),
  "C05": dict(cat="exploration", tech="exhaustive bounded enumeration of trees, strings and layout deviations (print/parse round trip)",
    text="Every tree up to the node bound, every literal/description string up to the length bound and every single/double layout deviation is printed by the harness printer and parsed by Grammar::parse; the parsed tree must equal the printed one. Exhaustive within the stated bounds.",
    note="trusted: the harness printer's precedence ladder and escaper (validated by this very check: a printer bug shows up as a mismatch)", ref="4/C05"),
